@@ -35,26 +35,36 @@ def parseOp : List String → Option Op
     | "read", some [p] => some (.read p)
     | _, _ => none
 
-def answer (s : St) (ws : List String) : St × String :=
-  match ws with
-  | ["reset"] => (init, "ok")
-  | ["resolve", k, id] => match nums [k, id] with
-    | some [k, id] => (s, match resolve s k id with | some f => showFeat f | none => "none")
-    | _ => (s, "bad-op")
-  | "readheld" :: p :: _ :: rest => match p.toNat?, parseOp rest with
-    | some p, some (.attach k) => let (s', os) := heldRead s p (.attach k); (s', showAll os)
-    | some p, some (.detach k) => let (s', os) := heldRead s p (.detach k); (s', showAll os)
-    | _, _ => (s, "bad-op")
-  | _ => match parseOp ws with
-    | some o => let (s', os) := step s o; (s', showAll os)
-    | none => (s, "bad-op")
+/-- driver state: the model state and the peers whose connection cannot be written to (`world abc`, one digit per
+    peer, 1 = failing; must precede the ops of a history, `reset` clears it) -/
+structure D where
+  s : St := init
+  failing : List Nat := []
 
-partial def loop (h out : IO.FS.Stream) (s : St) : IO Unit := do
+def answer (d : D) (ws : List String) : D × String :=
+  let out := fun (os : List Obs) => showAll (delivered d.failing os)
+  match ws with
+  | ["reset"] => ({}, "ok")
+  | ["world", flags] =>
+    let fl := (flags.toList.zipIdx.filter fun (c, _) => c == '1').map (·.2)
+    ({ d with failing := fl }, "ok")
+  | ["resolve", k, id] => match nums [k, id] with
+    | some [k, id] => (d, match resolve d.s k id with | some f => showFeat f | none => "none")
+    | _ => (d, "bad-op")
+  | "readheld" :: p :: _ :: rest => match p.toNat?, parseOp rest with
+    | some p, some (.attach k) => let (s', os) := heldRead d.s p (.attach k); ({ d with s := s' }, out os)
+    | some p, some (.detach k) => let (s', os) := heldRead d.s p (.detach k); ({ d with s := s' }, out os)
+    | _, _ => (d, "bad-op")
+  | _ => match parseOp ws with
+    | some o => let (s', os) := step d.s o; ({ d with s := s' }, out os)
+    | none => (d, "bad-op")
+
+partial def loop (h out : IO.FS.Stream) (d : D) : IO Unit := do
   let line ← h.getLine
   if line.isEmpty then out.flush; return ()
-  let (s', ans) := answer s ((line.trimAscii.toString.splitOn " ").filter (· ≠ ""))
+  let (d', ans) := answer d ((line.trimAscii.toString.splitOn " ").filter (· ≠ ""))
   out.putStrLn ans
   out.flush
-  loop h out s'
+  loop h out d'
 
-def main : IO Unit := do loop (← IO.getStdin) (← IO.getStdout) init
+def main : IO Unit := do loop (← IO.getStdin) (← IO.getStdout) {}
